@@ -12,9 +12,17 @@ Proof.
   intros H. vm_compute in H. injection H as <-. vm_compute. repeat split; reflexivity.
 Qed.
 
+Lemma resolve_pseudo_str s str i tb : text_eqb (mnem i) RMB_t = false -> text_eqb (mnem i) ORG_t = false ->
+  resolve_operand (OPseudo s (VStr str)) i tb = Ok (OPseudo s (VStr str)).
+Proof.
+  intros H1 H2. cbn [resolve_operand]. cbn [v_is_symbol v_is_expr orb]. rewrite andb_false_r. cbn [bind].
+  rewrite H1, H2. reflexivity.
+Qed.
+
 Theorem fcc_line_emits_its_characters d str tail :
   is_space d = false -> ~ In d str -> Forall (fun c => c < 256) str -> mem_c 10 (removelast (fcc_line d str tail)) = false ->
   exists st p, parse_line (fcc_line d str tail) = Ok (Some st) /\ s_label st = [] /\
+    (forall tb, resolve_operand (s_operand st) (s_instr st) tb = Ok (s_operand st)) /\
     translate_operand (s_operand st) (s_instr st) = Ok p /\
     emit_value (cp_op p) = Ok [] /\ emit_value (cp_post p) = Ok [] /\ emit_value (cp_add p) = Ok str /\
     cp_size p = N.of_nat (length str).
@@ -23,7 +31,8 @@ Proof.
   destruct (fcc_parses_to_its_characters d str tail Hd Hn Hb Hnl) as (st & Hp & Ho & Hi & Hl).
   destruct (fcc_row_is_fcc _ Hi) as (H1 & H2 & H3 & H4 & H5).
   destruct (fcc_emits_its_characters (s_instr st) str (d :: str ++ [d]) H1 H2 H3 H4 H5 Hb) as (p & Ht & Ha & Hb' & Hc & Hs).
-  exists st, p. rewrite Ho. repeat split; assumption.
+  exists st, p. rewrite Ho. split; [assumption|]. split; [assumption|]. split; [intros tb; now apply resolve_pseudo_str|].
+  repeat split; assumption.
 Qed.
 
 (* FCB / FDB value lists, from the SOURCE LINE: a statement line in any layout (label or none, any white space, any
